@@ -2,7 +2,7 @@
 
 Explicit-state search over *histories of compilations* on the real process-wide compiler state.
 
-* Alphabet: the 42 designs of verif/gen/c11_designs.py (accepted ones and rejected ones, one per failure stage).
+* Alphabet: the 46 designs of verif/gen/c11_designs.py (accepted ones and rejected ones, one per failure stage).
 * Golden outcome of a letter = its compilation in a fresh interpreter (PYTHONHASHSEED=0) with an empty history.
 * History tree: every history up to a complete length is executed in one interpreter; the tree is explored
   depth-first with os.fork() as the state snapshot (verif/gen/c11_tree.py, a stand-alone script started in fresh
@@ -14,6 +14,8 @@ Explicit-state search over *histories of compilations* on the real process-wide 
               (reuse); all <=4 over the 8-letter core (reuse); all <=2 over all letters (fresh)
 * Corpus stratum: upstream reference designs X (cocotb stubbed): [X, X] for every 8th design (quick); for all
   designs [X, X], [X, Y] for the 8 designs following X and [rejected letter, X] (thorough).
+* Alternation stratum: the linear history (a b)^k (k = 12 quick / 25 thorough) for selected twin letters, with and
+  without gc.collect() between the builds, every step compared with golden (key alt/a~b=>victim#kind).
 * Oracle: after every history an accepted design yields the golden bytes; a rejected design is rejected
   again with the same exception class (the message may differ: weakest reading).  Deviations are reduced to
   minimal failing histories (key hist/<h1>>h2..=><victim>#<kind>).
@@ -209,7 +211,7 @@ CORE8 = CORE6 + ["env3", "env5"]
 # last letters (victims) of the longest histories over the full alphabet; every letter is additionally its own victim
 VICTIMS10 = ["comb", "coro", "syncflag", "prefix", "glob5", "env5", "dyn_b", "types_asc", "types_desc",
              "seqattrs_b", "base_b", "popcnt_set", "popcnt_clear"]
-VICTIMS_THOROUGH = VICTIMS10 + ["glob3", "env3", "dyn_a", "seqattrs_a", "base_a", "portinit", "alias", "pushed"]
+VICTIMS_THOROUGH = VICTIMS10 + ["rstinv_d", "plainawait", "glob3", "env3", "dyn_a", "seqattrs_a", "base_a", "portinit", "alias", "pushed"]
 
 
 def tree_strata(run, order, golden):
@@ -378,6 +380,56 @@ def check_corpus(run, moddir, letters, order, golden, devs):
                                             + f"; rejected letters used: {rejected}")
 
 
+# ---------------------------------------------------------------------------------------------
+# alternation stratum: the linear history (a b)^k, every step compared with golden, with and without gc.collect()
+# between the builds.  Catches effects that need accumulation (e.g. registries of id()s of dead objects whose
+# addresses are reused later), which no short history shows.
+# ---------------------------------------------------------------------------------------------
+ALT_PAIRS_QUICK = [("exprfn", "plainawait")]
+ALT_PAIRS_THOROUGH = ALT_PAIRS_QUICK + [("plainawait", "exprfn"), ("types_asc", "types_desc"), ("popcnt_set", "popcnt_clear"),
+                                        ("dyn_a", "dyn_b"), ("glob3", "glob5"), ("rstinv", "rstinv_d"),
+                                        ("seqattrs_a", "seqattrs_b"), ("base_a", "base_b"), ("coro", "rej_lowering")]
+
+
+def check_alternations(run, moddir, letters, order, golden):
+    rounds = 25 if run.thorough else 12
+    pairs = [(a, b) for a, b in (ALT_PAIRS_THOROUGH if run.thorough else ALT_PAIRS_QUICK) if a in order and b in order]
+    gfile = write_golden(moddir, golden)
+    tasks = []
+    for a, b in pairs:
+        for use_gc in (True, False):
+            spec = base_spec(moddir, letters, [a, b])
+            spec.update(mode="reuse", prefix=[a, b] * rounds, depth=2 * rounds, golden_file=gfile,
+                        count_prefix_all=True, gc_between=use_gc)
+            tasks.append({"kind": "alt", "mode": "reuse", "prefix": [a, b], "pair": [a, b], "gc": use_gc, "spec": spec,
+                          "hashseed": TREE_HASHSEED})
+    for kind, r in pmap(work, tasks, seed=run.seed):
+        if kind != "ok":
+            run.tool_error(f"alternation task failed: {r[-600:]}")
+            continue
+        res, t = r["res"], r["task"]
+        for e in res["errors"][:3]:
+            run.tool_error(f"alternation {t['pair']}: {e}")
+        if res["nodes"] != 2 * rounds:
+            run.tool_error(f"alternation {t['pair']} incomplete: {res['nodes']} of {2 * rounds} steps")
+        run.count("states", res["nodes"])
+        run.count("transitions", res["nodes"])
+        run.count("alternation_nodes", res["nodes"])
+        run.count("traces_validated_against_impl", res["compared"])
+        run.cmax("max_history_length", res["max_depth"])
+        if res["deviations"]:
+            d = min(res["deviations"], key=lambda x: len(x["history"]))
+            a, b = t["pair"]
+            what = (f"alternating the designs '{a}' and '{b}' in one interpreter ({'with' if t['gc'] else 'without'} gc.collect() "
+                    f"between the builds): compilation #{len(d['history']) + 1} ('{d['victim']}') deviates from the "
+                    f"fresh-interpreter result: {d['kind']} ({norm_sig(d['sig'])}); {len(res['deviations'])} of {2 * rounds} steps deviate")
+            run.violation(f"alt/{a}~{b}=>{d['victim']}#{d['kind']}", what,
+                          {"kind": "history", "mode": "reuse", "history": d["history"], "victim": d["victim"],
+                           "deviation": d["kind"], "gc": t["gc"]})
+    run.coverage_extra["alternation_stratum"] = {"pairs": [list(p) for p in pairs], "rounds": rounds,
+                                                 "variants": ["gc.collect() between builds", "no gc.collect()"]}
+
+
 def report_minimal(run, devs):
     # ---- minimal failing histories --------------------------------------------------------
     minimal = {}  # (history, victim, sig) -> {modes, record}
@@ -456,6 +508,8 @@ def main(run: Run):
             check_tree(run, moddir, letters, order, golden, devs)
         if (only is None or "corpus" in only) and not os.environ.get("VERIF_C11_LETTERS"):
             check_corpus(run, moddir, letters, order, golden, devs)
+        if (only is None or "alt" in only) and not os.environ.get("VERIF_C11_LETTERS"):
+            check_alternations(run, moddir, letters, order, golden)
         if cohdl_fingerprint() != fp0:
             run.tool_error("the cohdl source tree was modified while the check was running: outcomes are not "
                            "trustworthy (cohdl re-reads function sources at compile time); run again")
@@ -498,7 +552,8 @@ def replay(run: Run, data: dict):
         modes = [data["mode"]] if data.get("mode") in MODES else list(MODES)
         for mode in modes:
             spec = base_spec(moddir, letters, order)
-            spec.update(mode=mode, prefix=h + [v], depth=len(h) + 1, golden=None, record=True)
+            spec.update(mode=mode, prefix=h + [v], depth=len(h) + 1, golden=None, record=True,
+                        gc_between=bool(data.get("gc")))
             rec = run_driver(spec)["recorded"][-1]
             import importlib.util
 
